@@ -201,13 +201,18 @@ def stress(exe, tsan, rnd, nthreads, nops, verdict, label, perms=False):
             # files THEY write belong to their results
             for _ in range(2):
                 pos = rnd.randrange(1, max(2, len(h.script) // 2))
-                h.script[pos:pos] = ["writeslow 1 %s %s" % (hx(h.root + "/slow"), hx("pipe.conf"))]
+                h.script[pos:pos] = ["writeslow 1 %s %s" % (hx(R + "/shared"), hx("pipe%d.conf" % t))]
                 h.plan[pos:pos] = [None]
+        # every thread also writes files of its own into ONE directory all threads use (the files are private, the directory is not)
+        for j in range(3):
+            pos = rnd.randrange(1, max(2, len(h.script) - len(h.live) - 1))
+            h.script[pos:pos] = ["write 1 %s %s" % (hx(R + "/shared"), hx("t%d-%d.conf" % (t, j)))]
+            h.plan[pos:pos] = [None]
         h.tree = (tr, name, sfx, dl, cm, t)
         hists.append(h)
 
     def script_for(mode):
-        lines = ["rm %s" % hx(R)]
+        lines = ["rm %s" % hx(R), "mkdir %s" % hx(R + "/shared")]
         for h in hists:
             tr, name, sfx, dl, cm, t = h.tree
             lines.append("file %s %s" % (hx("%s/usr/etc/%s.%s" % (tr, name, sfx)), hx("K%sv%d\nV%susr\n" % (dl, t, dl))))
@@ -335,7 +340,7 @@ def check(pid, tier, seed):
     rc = verdict.finish()
     cov = {"states": states, "transitions": states, "traces_validated_against_impl": okf + oks,
            "evaluations": nsched + nthr, "distinct_nontrivial": sum(1 for _ in range(nsched)) + sum(n for n, _ in rounds if n >= 4),
-           "rule": "MC_Threads: all call-level interleavings of 2 threads x 5 calls and 3 threads x 3 calls on private objects (Isolation holds; the negative control with a shared static buffer violates it), and of 2 threads x 4 calls / 3 threads x 2 calls whose read goes through a callback entry point modelled as TWO steps (up to the callback, after it: the other threads' reads happen inside this read; the line number of the entry read is part of the results); %d interleavings exported as schedules and replayed deterministically on real threads with hand-over between calls and inside the callback, per-thread results compared with the model; stress: %s threads with random programs (setters/getters of all types, listings, ext getter, write, merge, reads of private files and private trees through econf_readDirs, econf_readConfig with PARSING_DIRS and the drop-ins-only form of econf_readConfig, and reads that fail - a link to nowhere, a missing file, a malformed file, a directory; every fourth thread also writes twice to a pipe nobody reads from yet, so that the call stays inside the opening of its file for 0.3 s while the others go on - the permission bits of every written file are part of the result) run concurrently and alone, results compared call by call (every second round with econf_requirePermissions in force, set by the main thread before the workers start and satisfied by every file, so that all reads take the checking paths), each thread's trace validated by the sequential specification Trace_KeyFile; the same programs under ThreadSanitizer (races are violations unless located in a data symbol referenced by econf_errLocation: %s). non-trivial = interleaving in which threads alternate / stress with >= 4 threads." % (
+           "rule": "MC_Threads: all call-level interleavings of 2 threads x 5 calls and 3 threads x 3 calls on private objects (Isolation holds; the negative control with a shared static buffer violates it), and of 2 threads x 4 calls / 3 threads x 2 calls whose read goes through a callback entry point modelled as TWO steps (up to the callback, after it: the other threads' reads happen inside this read; the line number of the entry read is part of the results); %d interleavings exported as schedules and replayed deterministically on real threads with hand-over between calls and inside the callback, per-thread results compared with the model; stress: %s threads with random programs (setters/getters of all types, listings, ext getter, write, merge, reads of private files and private trees through econf_readDirs, econf_readConfig with PARSING_DIRS and the drop-ins-only form of econf_readConfig, and reads that fail - a link to nowhere, a missing file, a malformed file, a directory; every thread writes files of its own into one directory that all threads use; every fourth thread also writes twice to a pipe there that nobody reads from yet, so that the call stays inside the opening of its file for 0.3 s while the others go on - the permission bits of every written file are part of the result) run concurrently and alone, results compared call by call (every second round with econf_requirePermissions in force, set by the main thread before the workers start and satisfied by every file, so that all reads take the checking paths), each thread's trace validated by the sequential specification Trace_KeyFile; the same programs under ThreadSanitizer (races are violations unless located in a data symbol referenced by econf_errLocation: %s). non-trivial = interleaving in which threads alternate / stress with >= 4 threads." % (
                nsched, "/".join(str(n) for n, _ in rounds[:6]), "derived from the binary"),
            "samples": [{"schedule": "0101010101", "threads": 2}], "exhaustive": False, "stress_calls": ncalls,
            "trusted_base": ["TLC 1.8.0", "gcc ASan/UBSan", "clang ThreadSanitizer", "drv.c threads command"]}
